@@ -159,7 +159,7 @@ def judge(case, io_, mo):
     if not accepted and o != 'RAISE DATAERR':
         ps.append({'kind': 'oracle', 'sig': 'rejected-with-' + o.split(' ')[-1], 'msg': 'rejected with %s' % o})
     if mo is not None and not ps and not mo[0].startswith('UNMODELLED'):
-        same = (mo[0] == o) if not accepted else (mo[0].startswith('OK ') and iu.canon_entries(mo[0][3:]) == iu.canon_entries(o[3:]))
+        same = (mo[0] == o) if not accepted else (mo[0].startswith('OK ') and iu.canon_entries(mo[0][3:], drop_other=True) == iu.canon_entries(o[3:], drop_other=True))
         if not same:
             ps.append({'kind': 'corr', 'sig': 'loads', 'msg': 'loads differs from model: %s vs %s' % (o[:150], mo[0][:150])})
     return ps
